@@ -88,7 +88,15 @@ def _force_aminusb(case):
 
 _any_case = st.one_of(*[c01.case_strategy(t) for t in c01.TARGETS])
 # half of the conversion cases carry an explicit occs_aminusb (generic, all zero, or summing to zero)
-conv_case = st.one_of(_any_case, _any_case.map(_force_aminusb))
+def _force_conversion(case):
+    """A case whose conversion is allowed, with every optional piece of data the writers look at."""
+    case = dict(_force_aminusb(case), allow_changes=True)
+    if case["target"] == "wfn":
+        case["mo_spin"] = "restricted_codes"
+    return case
+
+
+conv_case = st.one_of(_any_case, _any_case.map(_force_aminusb), _any_case.map(_force_conversion))
 
 
 def case_strategy(fmt):
@@ -184,6 +192,35 @@ def density(plain, sets, pts):
     return out[0] + out[1], out[0] - out[1]
 
 
+def returned_is_written(data, ret, target, path):
+    from iodata import dump_one
+    from iodata.utils import PrepareDumpError
+
+    with warnings.catch_warnings():
+        warnings.simplefilter("ignore")
+        try:
+            dump_one(data, path, allow_changes=True)
+            with open(path, "rb") as fh:
+                first = fh.read()
+            os.remove(path)
+        except Exception:  # noqa: BLE001 - reported by the caller's own loop
+            return []
+        try:
+            dump_one(ret, path, allow_changes=False)
+        except PrepareDumpError as exc:
+            return [Problem(f"C09/{target}/returned_object_not_the_written_one",
+                            f"the object returned with allow_changes=True is refused without it: {exc}")]
+        except Exception as exc:  # noqa: BLE001
+            return [Problem(f"C09/{target}/returned_object_not_writable", repr(exc))]
+        with open(path, "rb") as fh:
+            second = fh.read()
+        os.remove(path)
+    if first != second:
+        return [Problem(f"C09/{target}/returned_object_not_the_written_one",
+                        "dumping the returned object again (no changes allowed) gives a different file")]
+    return []
+
+
 def check_conversion(spec, tmpdir):
     from iodata import dump_one
     from iodata.utils import PrepareDumpError, PrepareDumpWarning
@@ -224,6 +261,10 @@ def check_conversion(spec, tmpdir):
         warned = any(issubclass(w.category, PrepareDumpWarning) for w in wlist)
         if not case["allow_changes"] and ret is not data:
             problems.append(Problem(f"C09/{target}/not_same_object", "without allow_changes another object was returned"))
+        if case["allow_changes"] and irep == 0:
+            # "the returned, written object": what comes back is what was written, so it can be
+            # written again as is (no conversion allowed) and gives the same file
+            problems += returned_is_written(data, ret, target, path)
         if ret is data:
             continue
         if not warned:
